@@ -16,6 +16,7 @@ RULE = ("eight workloads interleaved by case index (incl. V2 runs with stochasti
         "detection-error flip frequencies within 6 sigma; (sweep) QutipBackendV2.run() for one-pulse sequences of every "
         "duration x evaluation-time setting x sampling rate must return one state per requested time. non-trivial = "
         "distinct (workload, configuration) tuples")
+RULE += " Later additions: directed: hyperfine-only dephasing on a resonantly driven g-h superposition must lose purity."
 ASSUMPTIONS = ["tolerances: norm 1e-4 (solver rtol), trace 1e-5, positivity -1e-6, legacy-vs-V2 amplitudes 1e-3 and fidelity 1-1e-6, Rabi interval "
                "widened by 1e-4 (1-ns discretisation)", "statistical clauses are seeded 6-sigma tests"]
 TIERS = {"quick": dict(cases=420, shards=8, case_timeout=300, shard_timeout=1500),
